@@ -94,9 +94,15 @@ pub fn log2_zero() {
 /// u32 / u64: the 16-bit-prefix reduction (h = top 16 bits, s = shift): the returned bounds must
 /// enclose a rigorous enclosure of log2 n derived from the exact table entry of h (necessary
 /// conditions, tight to ~2^-34: never a false alarm, and a bound that misses log2 n by more is caught).
-pub fn log2_wide(is64: bool) {
+pub fn log2_wide(is64: bool, hlo: u64, hhi: u64) {
     let n: u64 = if is64 { nd::any() } else { nd::any::<u32>() as u64 };
     nd::assume(n > 0xffff);
+    {
+        // window on the 16-bit prefix (keeps the table lookups small)
+        let b = 64 - n.leading_zeros();
+        let hh = n >> (b - 16);
+        nd::assume(hh >= hlo && hh <= hhi);
+    }
     let (lb, ub) = if is64 { n.log2_bounds() } else { (n as u32).log2_bounds() };
     let bits = 64 - n.leading_zeros();
     let s = bits - 16;
